@@ -456,3 +456,106 @@ pub fn edge_cdf(g: &OGraph, d: usize, j: &[BigRational], mask: u64) -> Vec<(usiz
     }
     out
 }
+
+// ---------------------------------------------------------------------------------------------
+// monomials of the Symanzik polynomials
+
+/// exponent vectors of the monomials of U (one per spanning tree: the edges outside the tree)
+pub fn u_monomials(g: &OGraph) -> Vec<Vec<u8>> {
+    g.spanning_trees().into_iter().map(|t| (0..g.ne()).map(|e| if t >> e & 1 == 0 { 1 } else { 0 }).collect()).collect()
+}
+
+/// exponent vectors of the monomials of F for generic kinematics: 2-forests that split the external
+/// vertices non-trivially, and (U monomial) * x_e for every massive edge e
+pub fn f_monomials_generic(g: &OGraph) -> Vec<Vec<u8>> {
+    let mut out: Vec<Vec<u8>> = vec![];
+    let ext = g.ext_index();
+    for (fm, side) in g.two_forests() {
+        let inside = ext.iter().filter(|v| side[**v]).count();
+        if inside == 0 || inside == ext.len() {
+            continue;
+        }
+        out.push((0..g.ne()).map(|e| if fm >> e & 1 == 0 { 1 } else { 0 }).collect());
+    }
+    for um in u_monomials(g) {
+        for e in 0..g.ne() {
+            if g.massive[e] {
+                let mut m = um.clone();
+                m[e] += 1;
+                out.push(m);
+            }
+        }
+    }
+    out.sort();
+    out.dedup();
+    out
+}
+
+/// F for fixed rational kinematics as monomial -> coefficient (zero coefficients dropped)
+pub fn f_monomials_rational(g: &OGraph, pin: &[Vec<BigRational>], m2: &[BigRational]) -> Vec<(Vec<u8>, BigRational)> {
+    let mut map: std::collections::BTreeMap<Vec<u8>, BigRational> = std::collections::BTreeMap::new();
+    for (fm, side) in g.two_forests() {
+        let mut s = BigRational::zero();
+        for d in 0..pin[0].len() {
+            let mut c = BigRational::zero();
+            for (v, inside) in side.iter().enumerate() {
+                if *inside {
+                    c += &pin[v][d];
+                }
+            }
+            s += &c * &c;
+        }
+        if s.is_zero() {
+            continue;
+        }
+        let mono: Vec<u8> = (0..g.ne()).map(|e| if fm >> e & 1 == 0 { 1 } else { 0 }).collect();
+        *map.entry(mono).or_insert_with(BigRational::zero) += s;
+    }
+    for um in u_monomials(g) {
+        for e in 0..g.ne() {
+            if !m2[e].is_zero() {
+                let mut m = um.clone();
+                m[e] += 1;
+                *map.entry(m).or_insert_with(BigRational::zero) += &m2[e];
+            }
+        }
+    }
+    map.into_iter().filter(|(_, c)| !c.is_zero()).collect()
+}
+
+/// value of a monomial at x
+pub fn monomial<T: Scalar>(m: &[u8], x: &[T]) -> T {
+    let mut acc = T::rat(1, 1);
+    for (e, k) in m.iter().enumerate() {
+        for _ in 0..*k {
+            acc = acc * x[e];
+        }
+    }
+    acc
+}
+
+/// the monomial that dominates all others when x_{order[0]} >= x_{order[1]} >= ... with arbitrary gaps:
+/// sorted list of removal ranks (with multiplicity), lexicographically smallest
+pub fn dominant(monos: &[Vec<u8>], order: &[usize]) -> usize {
+    let mut rank = vec![0usize; order.len()];
+    for (r, e) in order.iter().enumerate() {
+        rank[*e] = r;
+    }
+    let key = |m: &Vec<u8>| -> Vec<usize> {
+        let mut v = vec![];
+        for (e, k) in m.iter().enumerate() {
+            for _ in 0..*k {
+                v.push(rank[e]);
+            }
+        }
+        v.sort();
+        v
+    };
+    let mut best = 0;
+    for i in 1..monos.len() {
+        if key(&monos[i]) < key(&monos[best]) {
+            best = i;
+        }
+    }
+    best
+}
